@@ -2,7 +2,7 @@
 # usage: tools/try_patch.sh <patch.diff> <prop> [tier]   runs one check against a scratch worktree of /repo's HEAD with the
 # patch applied (the worktree lives outside /repo and /verif and is reset afterwards; /verif/evidence is left untouched)
 patch=$(readlink -f $1); prop=$2; tier=${3:-quick}
-t=${TRY_SCRATCH:-/tmp/tryrepo}
+t=${TRY_SCRATCH:-/tmp/tryrepo2}
 [ -d $t ] || git -C /repo worktree add -q --detach $t HEAD
 git -C $t checkout -q --detach $(git -C /repo rev-parse HEAD) && git -C $t checkout -q -- . && git -C $t clean -fdq
 git -C $t apply $patch || { echo "patch does not apply"; exit 2; }
